@@ -683,6 +683,12 @@ with PolarsImpl.impl_store.impl_manager as impl:
             # polars computes the result as a float, but reports the integer
             # type of `x` in the schema of the lazy frame
             x = x.cast(pl.Float64)
+        elif len(_sig) > 2 and types.without_const(_sig[0]) != types.without_const(_sig[2]):
+            # the same holds for a fill value that is wider than `x`
+            if _sig[0].is_float() and (_sig[2].is_float() or _sig[2].is_int()):
+                x = x.cast(pl.Float64)
+            elif _sig[0].is_int() and _sig[2].is_int() and types.without_const(_sig[0]) != types.UInt64():
+                x = x.cast(pl.Int64)
         return x.shift(n, fill_value=fill_value)
 
     @impl(ops.is_in)
